@@ -5,7 +5,7 @@ NOTES = ("Contract-based deductive verification: Verus on functions extracted me
 ENGINES = [
     {"name": "E1-verus", "path": "engine/rsx.py, engine/verus.py, units/, contracts/", "serves_properties": ["C01", "C03", "C06", "C16"],
      "kind_free_text": "mechanical extraction + spec splicing -> single-file Verus (z3); unbounded proofs"},
-    {"name": "E2-kani", "path": "engine/overlay.py, contracts/*/kani*.rs", "serves_properties": ["C15", "C20"],
+    {"name": "E2-kani", "path": "engine/overlay.py, contracts/*/kani*.rs", "serves_properties": ["C03", "C07", "C11", "C15", "C20"],
      "kind_free_text": "cargo kani (CBMC) on a scratch copy of the real crates with an add-only cfg(kani) overlay"},
 ]
 PENDING = "check not built yet (framework under construction; see DESIGN.md section 5 for the planned decision)"
@@ -34,6 +34,22 @@ CHECKS = {
         "note": "Call depth is the proxy for stack use (frame sizes are not measured). Trusted: Verus termination rule, U-ITER/U-ESC stand-ins. NOT covered: graph_rec (SPARQL), populate_list/mark_list_node (JSON-LD), Turtle pretty printer, parsers.",
         "technique": "deductive verification (Verus termination obligations: no recursion without decreases; loop decreases) of mechanically extracted code",
     },
+    "C07": {
+        "engine": "E2-kani",
+        "category": "model_checking",
+        "text": "Bounded Kani harnesses on the real comparison kernel of the isomorphism test (IsoTerm ==/Ord/iso_cmp): equal exactly when the terms coincide after blanking every blank node, including inside quoted triples; Ord consistent and antisymmetric. The colour-refinement part is not under contract.",
+        "design_ref": "DESIGN.md 5 (C07)",
+        "note": "Bounded: 1-byte payloads over {a,b}, nesting depth 1. Trusted: Kani/CBMC, validator stubs. NOT covered: make_map/hash_quad_with (HashMap + SipHash out of CBMC's reach), end-to-end isomorphic_datasets (native replay only).",
+        "technique": "Kani proof harnesses (assume/assert contracts on the real generic code), bounded",
+    },
+    "C11": {
+        "engine": "E2-kani",
+        "category": "model_checking",
+        "text": "Bounded Kani harnesses check the forwarding contracts of the real view adapters against a recording store: matchers reach the store in the right positions, the graph position carries Any / the selector / exactly the view's graph name, graph names are dropped/added, mutations carry the view's graph name and return the store's flag, GraphAsDataset answers only for the default graph.",
+        "design_ref": "DESIGN.md 5 (C11)",
+        "note": "Bounded: probe matchers and three probe graph names. Coherence with the store's content then follows from the store's own quads_matching contract (C01), which is assumed here. Trusted: Kani/CBMC, validator stubs.",
+        "technique": "Kani proof harnesses with a contract-recording stand-in for the callee (modular: the view is checked against the store's contract, not its body), bounded",
+    },
     "C15": {
         "engine": "E2-kani",
         "category": "proof",
@@ -59,4 +75,14 @@ CHECKS = {
         "technique": "deductive verification (Verus pre/postconditions, loop invariants, lemmas) of mechanically extracted code",
     },
 }
-NOT_APPLICABLE = {p: PENDING for p in ["C02", "C04", "C05", "C07", "C08", "C09", "C10", "C11", "C12", "C13", "C14", "C17", "C18", "C19"]}
+NOT_APPLICABLE = {p: PENDING for p in ["C02", "C14", "C17", "C19"]}
+NOT_APPLICABLE.update({
+    "C04": "Turtle/TriG pretty-printer and Rio formatter: 800 lines of shape heuristics over HashMap/BTreeMap of GAT terms plus five regexes, and the other half of the property is Rio's parser; no function in the chain has a contract expressible in Verus' subset (regex, GATs, trait-object iterators) and Kani cannot reach the regexes (compiler ICE) - stubbing them removes the decisions the property is about",
+    "C05": "'equal canonical output <=> isomorphic input' is a meta-theorem about RDFC-1.0 under collision-freeness of SHA-256, quantified over pairs of datasets and all label bijections; it is not a pre/postcondition of any function. The contractible kernels are checked under C06",
+    "C08": "the parsers are rio_turtle / rio_xml / json-ld (dependencies, not under contract); sophia's own part is the Trusted<..> wrapper whose soundness is a language inclusion between a third-party parser and a regex - outside both verifiers. The loop-free adapter layer is proved under C15",
+    "C09": "equality of the language of a 200-line regex (executed by the regex crate) with the RFC 3987 ABNF, and its inclusion in oxiri's parser: language-equivalence statements about two recognisers that neither verifier can execute (regex_automata makes kani-compiler ICE; Verus has no str/regex)",
+    "C10": "the carrying code is HashMap<SimpleTerm,_> plus an unsafe 'static transmute: outside Verus' subset, and CBMC runs out of memory on std's HashMap even with fixed SipHash keys and one concrete term (measured: 40 min, > 24 GB). The defect the property is about was nevertheless found and repaired (fix: 3b52009) and is demonstrated by replay_src/c10 under Miri - not a contract check, hence not claimed",
+    "C12": "JSON-LD serializer builds json-syntax values through label-keyed hash maps and the inverse direction is the json-ld crate's expansion algorithm; neither the data types nor the relational round-trip property are within reach of a function contract in Verus or a tractable Kani harness",
+    "C13": "the oracle is the SPARQL 1.1 algebra over spargebra ASTs and the engine is a tree of boxed, chained, lifetime-erased iterators over GAT terms with Arc/HashSet state; no function-level contract expresses 'equals the algebra'. The numeric comparison kernel is decided under C14",
+    "C18": "serialisation is Rio's RdfXmlFormatter and parsing is rio_xml over quick-xml; sophia contributes a term conversion only, the property is about the dependencies' escaping and whitespace handling",
+})
